@@ -29,6 +29,7 @@ func gstage1(args []string) error {
 	nd := fs.Bool("nd", false, "newline-delimited mode")
 	prop := fs.String("property", "C06", "property id")
 	full := fs.Bool("full", false, "all seam placements for every case (default: all for short, rotating for the rest)")
+	everyOffset := fs.Bool("everyoffset", false, "additionally place the input at every offset 0..127 (per-lane tables of the kernels)")
 	fs.Parse(args)
 	if !run.HasAVX512 {
 		return fmt.Errorf("this CPU has no AVX-512: the two kernel families cannot be compared")
@@ -43,10 +44,15 @@ func gstage1(args []string) error {
 		pos []int
 		ok  bool
 	}
+	closed := map[int]bool{} // index into cases: the " }"-closed form
 	var cases []sc
 	n, err := tla.ReadDump(f, func(st tla.State) error {
 		o := st["out"]
 		cases = append(cases, sc{inp: st["inp"].Bytes(), pos: o.Field("pos").IntSlice(), ok: o.Field("ok").B})
+		if p2, has := o.F["pos2"]; has {
+			closed[len(cases)] = true
+			cases = append(cases, sc{inp: append(st["inp"].Bytes(), ' ', '}'), pos: p2.IntSlice(), ok: o.Field("ok2").B})
+		}
 		return nil
 	})
 	if err != nil {
@@ -72,6 +78,11 @@ func gstage1(args []string) error {
 				}
 			}
 			places = append(places, place{0, 127 - (i % (len(c.inp) + 1))})
+			if *everyOffset {
+				for sp := 0; sp < 128; sp++ {
+					places = append(places, place{0, sp})
+				}
+			}
 			if i%16 == 0 || *full {
 				// tokens of inp become the last / first entries of an index buffer (incl. the stripped-index case)
 				for t := 0; t <= 3; t++ {
